@@ -827,9 +827,14 @@ class StateNode(Generic[TContext, TEvent]):
             return initial
 
         # 🕰️ History pseudo-states are never a valid initial target.
+        #    (A malformed `states` value is reported by `_parse_states`; this
+        #    runs first and must not trip over it with a raw AttributeError.)
+        raw_states = config.get("states", {})
+        if not isinstance(raw_states, dict):
+            return initial
         candidates = [
             key
-            for key, child in config.get("states", {}).items()
+            for key, child in raw_states.items()
             if not (isinstance(child, dict) and child.get("type") == "history")
         ]
 
